@@ -22,7 +22,11 @@ CONSTANTS Configs,    \* set of <<data, parity>>
           FixUnpad,   \* FALSE: UnpadMessage computes varintLen + msgLen with wrap-around
           FixProto,   \* FALSE: UnitFromProto indexes shards[0] and converts the root slice to an
                       \*        array without checking lengths (H18)
-          FixShardLens \* FALSE: UnitFromProto's "shards of different length" check skips the last shard
+          FixShardLens, \* FALSE: UnitFromProto's "shards of different length" check skips the last shard
+          MaxSession,   \* deliveries explored on one validator instance
+          RecordOnlyAccepted \* TRUE (the code): the validator records a shard index only when the unit
+                        \* passed every check; FALSE is a design mutant (index recorded on arrival)
+                        \* used to show that the session properties bite
 
 Data(c) == c[1]
 Parity(c) == c[2]
@@ -118,8 +122,14 @@ KeyFields == {"root", "committee", "publisher", "publisherself", "publisherout",
 
 OtherPeer(NP, a, b) == IF {x \in 0..(NP - 1) : x # a /\ x # b} = {} THEN NP       \* (NP = 2: nobody)
                        ELSE SetMin({x \in 0..(NP - 1) : x # a /\ x # b})
-Validate(NP, loc, pub, u, f, j, seen, cached, nz) ==
-  LET i == IF f = "index" THEN j ELSE IF f = "indexoob" THEN NP - 1 ELSE u
+(* the shard index the unit claims *)
+IdxOf(NP, u, f, j) == IF f = "index" THEN j ELSE IF f = "indexoob" THEN NP - 1 ELSE u
+
+(* ValidateSt: the validator with its state made explicit: acc = the shard indices it ACCEPTED so far
+   (receivedShards), cached = it holds a verified signature (set when, and only when, a unit was
+   accepted). *)
+ValidateSt(NP, loc, pub, u, f, j, acc, cached, nz) ==
+  LET i == IdxOf(NP, u, f, j)
       q == CASE f = "publisher" -> OtherPeer(NP, pub, loc)     \* another member, not the local peer
              [] f = "publisherself" -> loc
              [] f = "publisherout" -> NP                       \* not a member
@@ -131,12 +141,42 @@ Validate(NP, loc, pub, u, f, j, seen, cached, nz) ==
       freshSigOK == f \notin {"sig", "sigempty", "committee", "publisher", "publisherself", "publisherout"} /\ nonceOK
       sigOK == IF cached /\ f \notin KeyFields THEN f \notin {"sig", "sigempty"} ELSE freshSigOK
   IN IF q \notin 0..(NP - 1) \/ q = loc THEN "route"        \* no subprocessor for this publisher
-     ELSE IF seen /\ f \notin KeyFields /\ i = u THEN "dup"
+     ELSE IF f \notin KeyFields /\ i \in acc THEN "dup"
      ELSE IF ~OriginOK(NP, loc, sender, q, i) THEN "origin"
      ELSE IF f \in {"noshards", "twoshards"} THEN "shards"
      ELSE IF ~leafOK THEN "shards"
      ELSE IF ~sigOK THEN "sig"
      ELSE "ok"
+
+(* one-shot form used by the single experiments: seen = honest unit u was accepted before *)
+Validate(NP, loc, pub, u, f, j, seen, cached, nz) ==
+  ValidateSt(NP, loc, pub, u, f, j, IF seen THEN {u} ELSE {}, cached, nz)
+
+(* One delivery to ONE per-message validator (one subprocessor): the verdict and the validator's
+   next state.  ONLY an accepted unit changes the state: its index joins acc, its signature is
+   cached.  A rejected unit - whatever is wrong with it, whoever sent it - leaves no trace; in
+   particular it does not use up its shard index, otherwise any peer could block every index of an
+   in-flight message with one junk unit each and the receiver would never reach its threshold.
+   The units of a session are consistent with the validator's own leaf encoding and carry the
+   signed nonce (that is what the replayer builds), so the verdicts are those of the repaired
+   validator whatever FixLeaf / FixNonce say. *)
+SessionFields == (ValidateFields \ KeyFields)          \* same message key = same validator
+SessionVerdict(NP, loc, pub, u, f, j, st) ==
+  LET i == IdxOf(NP, u, f, j)
+      hs == HonestSender(pub, loc, u)
+      sender == IF f = "sender" THEN OtherPeer(NP, hs, loc) ELSE IF f = "senderself" THEN loc ELSE hs
+  IN IF i \in st.acc THEN "dup"
+     ELSE IF ~OriginOK(NP, loc, sender, pub, i) THEN "origin"
+     ELSE IF f \in {"noshards", "twoshards", "shard", "shardlen", "proof", "proofshort", "index", "indexoob"} THEN "shards"
+     ELSE IF f \in {"sig", "sigempty"} THEN "sig"
+     ELSE "ok"
+SessionStep(NP, loc, pub, u, f, j, st) ==
+  LET v == SessionVerdict(NP, loc, pub, u, f, j, st)
+  IN [v |-> v,
+      st |-> IF v = "ok" THEN [acc |-> st.acc \cup {IdxOf(NP, u, f, j)}, sig |-> TRUE]
+             ELSE IF RecordOnlyAccepted THEN st
+             ELSE [st EXCEPT !.acc = @ \cup {IdxOf(NP, u, f, j)}]]
+Positions(NP) == {0, NP - 1, NP \div 2}
 
 --------------------------------------------------------------------------
 (* UnitFromProto on a wire unit: well-formed, without shards, with a root that is not 32 bytes *)
@@ -149,10 +189,12 @@ FromProto(kind) ==
 
 --------------------------------------------------------------------------
 (* The state machine TLC explores: pick a configuration, run one experiment, look at the result. *)
-VARIABLES cfg, exp, out
-vars == <<cfg, exp, out>>
+VARIABLES cfg, exp, out,
+          vst      \* a validator session: [on, loc, pub, acc, sig, n]
+vars == <<cfg, exp, out, vst>>
 
-Init == cfg \in Configs /\ exp = [k |-> "created"] /\ out = "units"
+NoSession == [on |-> FALSE, loc |-> 0, pub |-> 0, acc |-> {}, sig |-> FALSE, n |-> 0]
+Init == cfg \in Configs /\ exp = [k |-> "created"] /\ out = "units" /\ vst = NoSession
 
 Receive(S) ==
   /\ exp' = [k |-> "receive", S |-> S]
@@ -186,7 +228,24 @@ DoFromProto(kind) ==
   /\ exp' = [k |-> "fromproto", kind |-> kind]
   /\ out' = FromProto(kind)
 
-Fresh == exp.k = "created" /\ UNCHANGED cfg
+Fresh == exp.k = "created" /\ UNCHANGED <<cfg, vst>>
+
+(* a sequence of deliveries (genuine units and junk of every kind, in any order, for any index)
+   to one validator *)
+Deliver(loc, pub, u, f, j) ==
+  /\ loc # pub
+  /\ vst.on => (loc = vst.loc /\ pub = vst.pub)
+  /\ f = "index" => j # u
+  /\ f # "index" => j = u
+  /\ f = "sender" => NPeers(cfg) >= 3
+  /\ LET r == SessionStep(NPeers(cfg), loc, pub, u, f, j, [acc |-> vst.acc, sig |-> vst.sig])
+     IN /\ exp' = [k |-> "session", u |-> u, f |-> f, j |-> j, i |-> IdxOf(NPeers(cfg), u, f, j)]
+        /\ out' = r.v
+        /\ vst' = [on |-> TRUE, loc |-> loc, pub |-> pub, acc |-> r.st.acc, sig |-> r.st.sig, n |-> vst.n + 1]
+ActSession ==
+  /\ exp.k = (IF vst.on THEN "session" ELSE "created") /\ vst.n < MaxSession /\ UNCHANGED cfg
+  /\ \E loc \in Positions(NPeers(cfg)), pub \in Positions(NPeers(cfg)), u \in Slots(cfg), f \in SessionFields,
+        j \in Slots(cfg) : Deliver(loc, pub, u, f, j)
 ActReceive == Fresh /\ \E S \in SUBSET Slots(cfg) : Receive(S)
 ActCorrupt ==
   Fresh /\ \E u \in Slots(cfg), f \in ConstructFields, j \in Slots(cfg), b \in BOOLEAN, S \in SUBSET Slots(cfg) :
@@ -198,7 +257,7 @@ ActValidate ==
              DoValidate(loc, pub, u, f, j, seen, cached, nz)
 ActFromProto == Fresh /\ \E kind \in ProtoKinds : DoFromProto(kind)
 
-Next == ActReceive \/ ActCorrupt \/ ActByzantine \/ ActValidate \/ ActFromProto
+Next == ActReceive \/ ActCorrupt \/ ActByzantine \/ ActValidate \/ ActFromProto \/ ActSession
 
 Spec == Init /\ [][Next]_vars
 
@@ -227,6 +286,20 @@ BadPaddingRejected == exp.k = "byzpad" => out = "err"
 HonestAccepted == (exp.k = "validate" /\ exp.f = "none" /\ ~exp.seen) => out = "ok"
 CorruptRejected == (exp.k = "validate" /\ exp.f # "none") => out # "ok"
 DuplicateRejected == (exp.k = "validate" /\ exp.f = "none" /\ exp.seen) => out = "dup"
+
+(* THE VALIDATOR AS A STATE MACHINE (sequences on one instance).
+   A rejected unit changes nothing: not the accepted indices, not the cached signature. *)
+RejectedLeavesValidatorUnchanged ==
+  [][(exp'.k = "session" /\ out' # "ok") => (vst'.acc = vst.acc /\ vst'.sig = vst.sig)]_vars
+(* a genuine unit is accepted iff its index was not ACCEPTED before - whatever was rejected before *)
+GenuineAcceptedIffNew ==
+  [][(exp'.k = "session" /\ exp'.f = "none") => out' = (IF exp'.u \in vst.acc THEN "dup" ELSE "ok")]_vars
+(* junk is never accepted, and acc only ever holds indices of genuine units *)
+SessionJunkRejected == (exp.k = "session" /\ exp.f # "none") => out # "ok"
+(* hence the receiver can always still reach its threshold with genuine units *)
+ThresholdStaysReachable ==
+  vst.on => \A u \in Slots(cfg) \ vst.acc :
+               SessionVerdict(NPeers(cfg), vst.loc, vst.pub, u, "none", u, [acc |-> vst.acc, sig |-> vst.sig]) = "ok"
 
 (* the property's second sentence as one formula over validate-then-construct: a unit that the
    validator lets through cannot change the outcome of Construct *)
